@@ -268,6 +268,35 @@ theorem unsupported_parameters_differ :
       renditionOfStyle (sgrToStyle ps) ≠ applySgr {} ps := by
   decide
 
+/-! ### `--map-styles`: the lookup key -/
+
+/-- The key of a `--map-styles` pair is parsed at full colour depth and the replacement at the
+configured depth (both `true_color` arguments are read from `parse_styles_map` on every run). -/
+theorem map_styles_depths : ∀ configured : Bool,
+    Generated.mapStylesKeyTrueColor configured = true ∧
+    Generated.mapStylesValueTrueColor configured = configured := by decide
+
+/-- Hence the style parsed from a moved line (`sgrToStyle`, colours exactly as in the input, 24-bit
+included) finds the pair whose key names that same style, whatever depth delta paints at and
+whatever the quantisation is: the stored key is the key of the style as written. -/
+theorem map_styles_key_matches_input (quant : Nat → Nat → Nat → Nat) (configured : Bool) (st : Style) :
+    mapStylesKey quant configured st = styleKey st := by
+  have h := (map_styles_depths configured).1
+  unfold mapStylesKey
+  rw [h]
+  cases st with
+  | mk b1 b2 b3 b4 b5 b6 b7 b8 fg bg =>
+    have e : ∀ c : Color, Ansi.atDepth quant true c = c := by intro c; cases c <;> simp [Ansi.atDepth]
+    cases fg <;> cases bg <;> simp [Style.atDepth, styleKey, e]
+
+/-- `38;2;255;0;128` on a moved line and the key `#ff0080`: same key at both depths; a key reduced to a
+256-colour number would not be. -/
+example :
+    mapStylesKey (fun _ _ _ => 198) false { fg := some (.rgb 255 0 128) } = styleKey (sgrToStyle [[38], [2], [255], [0], [128]]) ∧
+    (styleKey (Style.atDepth (fun _ _ _ => 198) false { fg := some (.rgb 255 0 128) })).2.1 ≠
+      (styleKey (sgrToStyle [[38], [2], [255], [0], [128]])).2.1 := by
+  decide
+
 /-! ### Truncation of over-long lines -/
 
 /-- `truncate_commutes_strip` at full strength — `strip (truncate raw w sym) = truncate (strip raw)
